@@ -11,6 +11,7 @@ import (
 )
 
 func main() {
+	checks.InitRunDir()
 	if len(os.Args) > 1 && os.Args[1] == "smoke" {
 		seed := uint64(1)
 		if len(os.Args) > 2 {
